@@ -115,8 +115,12 @@ def run_case(case, which):
                     return '%s in L is True but no such object in the list' % key
         return None
 
+    held = {}        # every list object the attribute ever returned (old ones stay coherent on their own)
+    doc2 = collada.Collada()
+
     for stepno, op in enumerate(case['ops']):
         L = getattr(doc, attr)
+        held.setdefault(id(L), (L, None))
         before = list(L)
         before_lk = lookups(L)
         name = op[0]
@@ -234,7 +238,14 @@ def run_case(case, which):
             elif name == 'clear':
                 L.clear()
             elif name == 'reassign':
-                setattr(doc, attr, make_iterable([O(p) for p in op[1]], op[2] if len(op) > 2 else 'list'))
+                if len(op) > 2 and op[2] == 'adopt':
+                    # wholesale replacement by ANOTHER document's live library list
+                    setattr(doc2, attr, [O(p) for p in op[1]])
+                    other = getattr(doc2, attr)
+                    held[id(other)] = (other, [O(p) for p in op[1]])
+                    setattr(doc, attr, other)
+                else:
+                    setattr(doc, attr, make_iterable([O(p) for p in op[1]], op[2] if len(op) > 2 else 'list'))
             elif name == 'reverse':
                 L.reverse()
         except Exception as e:  # noqa
@@ -265,6 +276,17 @@ def run_case(case, which):
                 c = coherent(L, stepno, name)
                 if c:
                     why = ('lookup-incoherent', c)
+            if why is None:
+                held.setdefault(id(L), (L, None))
+                for Lh, frozen in list(held.values()):
+                    if Lh is L:
+                        continue
+                    c = coherent(Lh, stepno, name)
+                    if c is None and frozen is not None and [id(o) for o in Lh] != [id(o) for o in frozen]:
+                        c = 'a list of another document changed: %r, was %r' % (list(Lh), frozen)
+                    if c:
+                        why = ('other-list-incoherent', 'a list that was not operated on: ' + c)
+                        break
             if why is not None:
                 fails.append({'step': stepno, 'op': op, 'kind': why[0], 'detail': why[1]})
     return {'obs': obs, 'fails': fails}
